@@ -43,6 +43,18 @@ fn run_line(line: &str) -> String {
     match r { Ok(s) => s, Err(_) => format!("{} panic", id) }
 }
 
+/// Streams that start threads inside the crate run under a watchdog: a case that does not return within
+/// 120 s is reported as `hang` (its thread is abandoned) instead of stalling the whole shard.
+fn run_line_guarded(line: &str) -> String {
+    let stream = line.split(' ').next().unwrap_or("");
+    if !matches!(stream, "DLV" | "FAIL" | "HIST" | "ENC") { return run_line(line); }
+    let id = line.split(' ').nth(1).unwrap_or("?").to_string();
+    let l = line.to_string();
+    let (tx, rx) = std::sync::mpsc::channel();
+    std::thread::Builder::new().stack_size(64 << 20).spawn(move || { let _ = tx.send(run_line(&l)); }).unwrap();
+    match rx.recv_timeout(std::time::Duration::from_secs(120)) { Ok(s) => s, Err(_) => format!("{} hang", id) }
+}
+
 fn main() {
     let args: Vec<String> = std::env::args().collect();
     match args.get(1).map(|s| s.as_str()) {
@@ -99,7 +111,7 @@ fn main() {
             for line in stdin.lock().lines() {
                 let line = line.unwrap();
                 if line.trim().is_empty() || line.starts_with('#') { continue; }
-                writeln!(o, "{}", run_line(&line)).unwrap();
+                writeln!(o, "{}", run_line_guarded(&line)).unwrap(); o.flush().unwrap();
             }
         }
         _ => { eprintln!("usage: vharness gen <stream> <seed> <n> | run < cases"); std::process::exit(2); }
